@@ -71,6 +71,7 @@ def run(res):
     if not sum_bad:
         res.discharged.append(name3)
     failing += slice_views(res)
+    failing += deref_views(res)
     semprops.finish(res, "C05", cases, bad, sem_dis, na, nc, failing, texts,
                     "the shared semantic corpus (see C01): siblings share types and differ in content (Vec<i32>, Vec<String>, repeated "
                     "struct types, maps of equal value types); Debug forms include quotes, nested structs, tuples, vectors, maps; the "
@@ -108,6 +109,71 @@ SLICE_VIEW_CASES = [
     ("m[\"k\"]", "let m: HashMap<String, Stack> = [(\"k\".to_string(), Stack(vec![1]))].into_iter().collect();", "m", "#{ \"k\": [], .. }"),
     ("vs[1]", "let vs = vec![Stack(vec![1]), Stack(vec![2, 2])];", "vs", "[[1], [2]]"),
 ]
+
+
+# `*field: pattern` is checked against the POINTEE; the entry must show the pointee.  Box / Rc / Arc / & print as their pointee, so
+# any text passes for them; these wrappers deref to the payload but print as themselves (a newtype with a derived Debug,
+# ManuallyDrop, AssertUnwindSafe, a guard type).  (expression whose Debug is the expected text, setup, value, failing pattern)
+DEREF_VIEW_DECLS = r"""
+use std::mem::ManuallyDrop; use std::panic::AssertUnwindSafe; use std::ops::Deref;
+#[derive(Debug, Clone)] struct Meters(f64);
+impl Deref for Meters { type Target = f64; fn deref(&self) -> &f64 { &self.0 } }
+#[derive(Debug, Clone)] struct Tagged { tag: &'static str, inner: String }
+impl Deref for Tagged { type Target = String; fn deref(&self) -> &String { &self.inner } }
+#[derive(Debug, Clone, PartialEq)] enum Phase { Idle, Running(u32) }
+#[derive(Debug)] struct Probe { distance: Meters, retries: ManuallyDrop<u32>, phase: AssertUnwindSafe<Phase>, label: Tagged, deep: Box<Meters>, xs: ManuallyDrop<Vec<u8>> }
+fn probe() -> Probe { Probe { distance: Meters(3.5), retries: ManuallyDrop::new(7), phase: AssertUnwindSafe(Phase::Running(2)),
+  label: Tagged { tag: "t", inner: "p1".to_string() }, deep: Box::new(Meters(1.5)), xs: ManuallyDrop::new(vec![1, 2]) } }
+#[derive(Debug)] enum Carrier { One(Meters, u8) }
+"""
+DEREF_VIEW_CASES = [
+    ("*p.distance", "let p = probe();", "p", "Probe { *distance: > 5.0, .. }"), ("*p.distance", "let p = probe();", "p", "Probe { *distance: == 1.0, .. }"),
+    ("*p.distance", "let p = probe();", "p", "Probe { *distance: 4.0..5.0, .. }"), ("*p.distance", "let p = probe();", "p", "Probe { *distance: |cl_x| cl_x > 9.0, .. }"),
+    ("*p.retries", "let p = probe();", "p", "Probe { *retries: 8, .. }"), ("*p.retries", "let p = probe();", "p", "Probe { *retries: != 7, .. }"),
+    ("*p.phase", "let p = probe();", "p", "Probe { *phase: Phase::Idle, .. }"), ("*p.retries", "let p = probe();", "p", "Probe { *retries: 1..5, .. }"),
+    ("*p.label", "let p = probe();", "p", "Probe { *label: \"p2\", .. }"), ("*p.label", "let p = probe();", "p", "Probe { *label: =~ r\"^q\", .. }"),
+    ("**p.deep", "let p = probe();", "p", "Probe { **deep: > 2.0, .. }"), ("p.deep.0", "let p = probe();", "p", "Probe { *deep: _ { 0: > 2.0, .. }, .. }"),
+    ("*p.xs", "let p = probe();", "p", "Probe { *xs: [1, 2, 3], .. }"), ("p.xs.len()", "let p = probe();", "p", "Probe { xs.len(): 3, .. }"),
+    ("*t.0", "let t = (Meters(3.5), 1);", "t", "(*0: > 5.0, 1: 1)"), ("**c0", "let c = Carrier::One(Meters(3.5), 1); let Carrier::One(c0, _) = &c;", "c", "Carrier::One(*0: > 5.0, 1: 1)"),
+    ("*m", "let m = Meters(3.5);", "*m", "> 5.0"), ("*m", "let m = ManuallyDrop::new(7u32);", "*m", "8"),
+]
+
+
+def deref_views(res):
+    import e2e
+    name = "direct:`*field` failures show the pointee, not the pointer (Deref types whose Debug is not transparent)"
+    res.obligations.append(name)
+    body = []
+    for i, (dbg, pre, val, pat) in enumerate(DEREF_VIEW_CASES):
+        body.append("    { %s println!(\"expect %d {}\", hexs(&format!(\"{:?}\", %s))); run_case(\"%d\", std::panic::AssertUnwindSafe(|| { assert_struct!(%s, %s); })); }"
+                    % (pre, i, dbg, i, val, pat))
+    prog = e2e.PRELUDE + DEREF_VIEW_DECLS + "\nfn main() { std::panic::set_hook(Box::new(|_| {}));\n" + "\n".join(body) + "\n}\n"
+    o = e2e.compile_many([prog], run=True, tag="c05dv")[0]
+    e2e.cleanup("c05dv")
+    if not o["compiled"]:
+        res.violation("no-failing-input-found", "the deref-view programs of C05 no longer compile against /repo: " + o["stderr"][-1200:], {"obligation": name})
+        return 0
+    got = e2e.parse_case_lines(o["stdout"])
+    expect = {}
+    for l in o["stdout"].splitlines():
+        if l.startswith("expect "):
+            _, i, h = l.split(" ")
+            expect[i] = unhx(h).decode("utf-8", "replace")
+    bad = 0
+    for i, (dbg, pre, val, pat) in enumerate(DEREF_VIEW_CASES):
+        c = got.get(str(i))
+        if c is None or c["verdict"] != "fail" or len(c["pushes"]) != 1:
+            raise vlib.CheckError("deref-view case %d did not fail with exactly one entry: %r" % (i, c))
+        if c["pushes"][0]["actual"] != expect[str(i)]:
+            bad += 1
+            if bad <= 2:
+                res.violation("failing-input", "`%s` on `%s`: the entry shows %r but the value the pattern was checked against prints as %r"
+                              % (pat, val, c["pushes"][0]["actual"], expect[str(i)]),
+                              {"deref_view_case": i, "setup": pre, "value": val, "pattern": pat, "expected_text_of": dbg})
+    res.streams["deref-views"] = {"cases": len(DEREF_VIEW_CASES), "wrong_texts": bad}
+    if not bad:
+        res.discharged.append(name)
+    return bad
 
 
 def slice_views(res):
@@ -155,6 +221,10 @@ def slice_views(res):
 def replay(res, path):
     import json
     v = json.load(open(path))
+    if "deref_view_case" in v:
+        n = deref_views(res)
+        print("deref-view cases re-run:", "violation" if n else "property holds on these inputs")
+        return 1 if n else 0
     if "slice_view_case" in v:
         n = slice_views(res)
         print("slice-view cases re-run:", "violation" if n else "property holds on these inputs")
